@@ -33,6 +33,119 @@ def _placeholders(lit):
     return out
 
 
+def _unescape_char(src):
+    src = src.strip()
+    if len(src) < 3 or src[0] != "'" or src[-1] != "'":
+        return None
+    body = src[1:-1]
+    if len(body) == 1:
+        return body
+    return {"\\\\": "\\", "\\'": "'", '\\"': '"', "\\n": "\n", "\\t": "\t", "\\r": "\r", "\\0": "\0"}.get(body)
+
+
+def _char_loop_table(body):
+    """{char: text appended for it} for a helper of the shape
+         let mut acc = String::..; for c in s.chars() { <if c == 'x' / match c> ... acc.push(..) / acc.push_str(..) } acc
+    where every other character is appended as it is; None when the function is not of that shape"""
+    stmts = body.get("stmts") or []
+    loops = [st["e"] for st in stmts if st.get("k") == "expr" and st["e"].get("k") == "for"]
+    if len(loops) != 1:
+        return None
+    lp = loops[0]
+    it = lp["iter"]
+    if not (it.get("k") == "mcall" and it.get("m") == "chars" and not it["args"]):
+        return None
+    cvar = lp["pat"].replace("mut ", "").strip()
+    last = stmts[-1]
+    if not (last.get("k") == "expr" and not last.get("semi") and last["e"].get("k") == "path"):
+        return None
+    acc = last["e"]["v"]
+
+    def out_of(node):
+        """text appended by a block / expression: list of pieces, `None` for the character itself"""
+        if node.get("k") == "block":
+            pieces = []
+            for st in node["stmts"]:
+                if st.get("k") != "expr":
+                    raise ValueError
+                pieces += out_of(st["e"])
+            return pieces
+        if node.get("k") == "mcall" and node.get("recv", {}).get("k") == "path" and node["recv"]["v"] == acc and len(node["args"]) == 1:
+            a = node["args"][0]
+            if node["m"] == "push" and a.get("k") == "path" and a["v"] == cvar:
+                return [None]
+            if node["m"] == "push" and a.get("k") == "lit" and a.get("t") == "char":
+                return [a["v"]]
+            if node["m"] == "push_str" and a.get("k") == "lit" and a.get("t") == "str":
+                return [a["v"]]
+        raise ValueError
+
+    def render(pieces, ch):
+        return "".join(ch if x is None else x for x in pieces)
+
+    table = {}
+    try:
+        bs = lp["body"]["stmts"]
+        if len(bs) != 1 or bs[0].get("k") != "expr":
+            return None
+        e = bs[0]["e"]
+        if e.get("k") == "match" and e["on"].get("k") == "path" and e["on"]["v"] == cvar:
+            default = None
+            for arm in e["arms"]:
+                if arm.get("guard"):
+                    return None
+                if arm["pat"].strip() == "_" or arm["pat"].strip() == cvar:
+                    default = out_of(arm["body"])
+                    continue
+                for alt in _split_alts(arm["pat"]):
+                    ch = _unescape_char(alt)
+                    if ch is None:
+                        return None
+                    table[ch] = render(out_of(arm["body"]), ch)
+            if default != [None]:
+                return None
+            return table
+        # if c == 'x' { .. } else if c == 'y' { .. } else { acc.push(c) }
+        node = e
+        while node.get("k") == "if":
+            c = node["cond"]
+            if not (c.get("k") == "binary" and c["op"] == "==" and c["l"].get("k") == "path" and c["l"]["v"] == cvar and
+                    c["r"].get("k") == "lit" and c["r"].get("t") == "char"):
+                return None
+            table[c["r"]["v"]] = render(out_of(node["then"]), c["r"]["v"])
+            node = node.get("else")
+            if node is None:
+                return None
+            if node.get("k") == "block" and len(node["stmts"]) == 1 and node["stmts"][0].get("k") == "expr" and node["stmts"][0]["e"].get("k") == "if":
+                node = node["stmts"][0]["e"]
+        if out_of(node) != [None]:
+            return None
+        return table
+    except (ValueError, KeyError, TypeError):
+        return None
+
+
+def _split_alts(pat):
+    """alternatives of a pattern of character literals: `'a' | '\\'' | '|'`"""
+    out, cur, i, inq = [], "", 0, False
+    while i < len(pat):
+        ch = pat[i]
+        if inq and ch == "\\":
+            cur += pat[i:i + 2]
+            i += 2
+            continue
+        if ch == "'":
+            inq = not inq
+        if ch == "|" and not inq:
+            out.append(cur)
+            cur = ""
+        else:
+            cur += ch
+        i += 1
+    out.append(cur)
+    return [x for x in (y.strip() for y in out) if x]
+
+
 def r22(F):
     r = RuleResult("R22", "every string value is quoted through a helper",
                    "in the env, flags and exec converters a Val::Str payload reaches a formatting argument only through "
@@ -105,7 +218,7 @@ def r22(F):
         syn_walk(F.syn[file]["items"], visit)
     if n_ctx < 4:
         r.error("helper call sites not found in the syntax tree (%d)" % n_ctx)
-    # --- helper tables
+    # --- helper tables: a chain of str::replace calls, or one pass over the characters
     tables = {}
     for p, it in syn_items(F.syn["convert/mod.rs"]["items"]):
         if p[-1] in ("shell_escape_single_quoted", "shell_escape_double_quoted"):
@@ -115,8 +228,10 @@ def r22(F):
                     a = node["args"]
                     chain.append((a[0].get("v"), a[1].get("v"), node["ln"]))
             syn_walk(it["body"], visit)
-            # innermost call first
-            chain.sort(key=lambda x: 0)
+            if not chain:
+                tab = _char_loop_table(it["body"])
+                need(tab is not None, "%s: neither a chain of replace calls nor a loop over the characters this rule can read" % p[-1])
+                chain = [(a, b, it["body"]["ln"]) for a, b in sorted(tab.items())]
             tables[p[-1]] = chain
     need(len(tables) == 2, "shell escape helpers not found in convert/mod.rs")
     s = [(a, b) for a, b, _ in tables["shell_escape_single_quoted"]]
@@ -136,6 +251,11 @@ def r22h(F):
                    "(otherwise the backslashes it inserts would be doubled)", floor=1)
     fn = F.fn(DOUBLE)
     reps = [(b, t) for b, t in fn.calls() if callee(t).endswith("::replace")]
+    if not reps:
+        for p, it in syn_items(F.syn["convert/mod.rs"]["items"]):
+            if p[-1] == "shell_escape_double_quoted" and _char_loop_table(it["body"]) is not None:
+                r.inst("helper:double:order", fn.where(), True, "one pass over the characters: nothing the helper inserts is looked at again")
+                return r
     need(len(reps) == 4, "expected four replace calls in shell_escape_double_quoted")
     first = [b for b, t in reps if all(cfg.dominates(fn, b, x) for x, _ in reps)]
     need(len(first) == 1, "replace calls are not ordered by dominance")
